@@ -222,7 +222,7 @@ func parallelKeysThroughMiddleware(out string, sum *hx.Summary) []map[string]int
 	sum.Distribution["parallel_middleware_requests"] = int(requests.Load())
 	var vs []map[string]interface{}
 	if wrong.Load() > 0 {
-		vs = append(vs, map[string]interface{}{"property": "C06+C01", "kind": "cross-served-under-parallel-traffic", "count": wrong.Load(), "first": firstWrong.Load(), "same_key": "parallel traffic on 24 keys"})
+		vs = append(vs, map[string]interface{}{"property": "C06+C01+C20", "kind": "cross-served-under-parallel-traffic", "count": wrong.Load(), "first": firstWrong.Load(), "same_key": "parallel traffic on 24 keys"})
 	}
 	for k := 0; k < nkeys; k++ {
 		if n := fetches[k].Load(); n != 1 {
@@ -444,7 +444,7 @@ func manyKeysThroughMiddleware(nkeys int, sum *hx.Summary) map[string]interface{
 	sum.Distribution["middleware_requests"] = 2 * nkeys
 	sum.Distribution["middleware_hits"] = hits
 	if wrong > 0 {
-		return map[string]interface{}{"property": "C06", "kind": "cross-served", "count": wrong, "first": first, "keys": nkeys, "same_key": "cross-served through the cache middleware"}
+		return map[string]interface{}{"property": "C06+C20", "kind": "cross-served", "count": wrong, "first": first, "keys": nkeys, "same_key": "cross-served through the cache middleware"}
 	}
 	return nil
 }
